@@ -27,6 +27,7 @@ type c06Op struct {
 	V     float64 `json:"v,omitempty"`
 	N     int     `json:"n,omitempty"`
 	Local bool    `json:"local,omitempty"`
+	Batch bool    `json:"batch,omitempty"` // local publish through AddToBatch + PublishBatch (gossipsub)
 }
 
 type c06Case struct {
@@ -81,6 +82,7 @@ func c06Gen(rt *rapid.T) c06Case {
 			op.Q = rapid.SampledFrom([]int{0, 0, rapid.IntRange(1, c.Peers).Draw(rt, "author"), 41}).Draw(rt, "q")
 		case "lpub":
 			op.Local = rapid.IntRange(0, 7).Draw(rt, "localonly") == 0
+			op.Batch = rapid.IntRange(0, 3).Draw(rt, "batch") == 0
 		case "idontwant":
 			op.N = rapid.IntRange(0, 3).Draw(rt, "ahead") // names the message that will be published N publishes from now
 		case "adv":
@@ -577,7 +579,18 @@ func c06RunInBubble(t *testing.T, c c06Case, res *vfResult) {
 			if op.Local {
 				po = append(po, WithLocalPublication(true))
 			}
-			if err := handle(op.T).Publish(n.ctx, []byte(data), po...); err != nil {
+			if op.Batch && c.Router == "gossipsub" {
+				var b MessageBatch
+				if err := handle(op.T).AddToBatch(n.ctx, &b, []byte(data), po...); err != nil {
+					res.violate("C06/publish-error", step, "AddToBatch failed: %v", err)
+					continue
+				}
+				if err := n.ps.PublishBatch(&b); err != nil {
+					res.violate("C06/publish-error", step, "PublishBatch failed: %v", err)
+					continue
+				}
+				res.label("batch-publish")
+			} else if err := handle(op.T).Publish(n.ctx, []byte(data), po...); err != nil {
 				res.violate("C06/publish-error", step, "publish failed: %v", err)
 				continue
 			}
